@@ -17,4 +17,5 @@ import (
 	_ "verifharness/internal/c14"
 	_ "verifharness/internal/c15"
 	_ "verifharness/internal/c17"
+	_ "verifharness/internal/c20"
 )
